@@ -14,6 +14,7 @@ import re
 import shutil
 import subprocess
 import tempfile
+import types
 
 from core import Prop, Infra
 
@@ -95,9 +96,16 @@ def norm_parts(ps):
     return out or [lit('')]
 
 
-def mk(defs):
-    """defs: [(name, [parts])] -> case"""
+def mk(defs, filt=None):
+    """defs: [(name, [parts])] -> case; filt = (include list, exclude list) of [environment filter]"""
     defs = [(n, norm_parts(ps)) for n, ps in defs]
+    case = _mk(defs)
+    if filt is not None:
+        case['filter'] = {'incl': list(filt[0]), 'excl': list(filt[1])}
+    return case
+
+
+def _mk(defs):
     return {
         'defs': [[n, ''.join(part_text(p) for p in ps)] for n, ps in defs],
         'parts': [ps for _n, ps in defs],
@@ -128,6 +136,7 @@ class C41(Prop):
         'CylcModel.C41.literal_preserved_partial',
         'CylcModel.C41.literal_preserved_live',
         'CylcModel.C41.order',
+        'CylcModel.C41.filter_preserves_order',
         'CylcModel.C41.literal_preserved_counterexample',
     ]
     technique = ('Lean 4: fold-based state machine for the bash fragment + port of _get_variable_value_definition; '
@@ -137,6 +146,7 @@ class C41(Prop):
         '(validated against the real bash on every generated case, never proved)',
         'Python re for the two tilde patterns of _get_variable_value_definition, re-implemented by hand (tildeSlash, tildeBare); '
         '\\s = str.isspace regenerated into Generated/BashCfg.lean',
+        'job_conf["environment"] is the namespace environment after WorkflowConfig.filter_env (inheritance / broadcast merging before it is not exercised); '
         'the job script calls cylc__job__inst__user_env unchanged (the function is sourced and called on its own here)',
     ]
     unmodelled = [
@@ -145,7 +155,8 @@ class C41(Prop):
         'metacharacters outside quotes): the model answers "unsupported", those cases are judged only',
         'set -euo pipefail of the real job script (unset references abort there; here they expand to nothing)',
     ]
-    rule = ('sections of 1-4 variables; values rendered from structure: literal text over letters/digits, blanks, # = : / * ? [ ] ! { } % ^ , . - + @, '
+    rule = ('sections of 1-4 variables, 45% of the multi-variable ones passed through the real WorkflowConfig.filter_env with include lists '
+            '(subset, shuffled order, unknown names) and / or exclude lists; values rendered from structure: literal text over letters/digits, blanks, # = : / * ? [ ] ! { } % ^ , . - + @, '
             'quotes, unicode (incl. non-ASCII whitespace), shell metacharacters, newlines; the three tilde shapes with existing and unknown logins, ~+ ~- ~0; '
             'literal text starting with ~ (blanks and shell-active characters before the first /, several tildes); '
             '$NAME / ${NAME} references to earlier, later and outer variables; raw $ ` \\; plus the exhaustive box of all values of length <= 3 '
@@ -155,6 +166,8 @@ class C41(Prop):
     def setup(self):
         from cylc.flow.job_file import JobFileWriter
         self.W = JobFileWriter
+        from cylc.flow.config import WorkflowConfig
+        self.WC = WorkflowConfig
         self.esc = None
 
     # ------------------------------------------------------------------ K-T
@@ -201,6 +214,10 @@ class C41(Prop):
             mk([('A', [lit("it's # not a comment")]), ('B', [lit('a=b:~/c')]), ('C', [lit('é☃　')])]),
             mk([('A', [lit('q"z')]), ('B', [lit('j"Q')])]),          # two odd quotes re-pair across lines
             mk([('A', [lit('~root/"q"')]), ('B', [lit('~nosuch')]), ('C', [lit('~root')])]),
+            mk([('RUN_DIR', [lit('/work/run 1')]), ('X', [lit('x')]), ('LOG_DIR', [ref('RUN_DIR'), lit('/log')]), ('A', [ref('LOG_DIR', True)])],
+               (['LOG_DIR', 'A', 'RUN_DIR', 'NOPE'], [])),       # include list in another order than the definitions
+            mk([('A', [lit('a')]), ('B', [ref('A'), lit('b')]), ('C', [ref('B', True), ref('A')])], ([], ['B'])),
+            mk([('A', [lit('a')]), ('B', [ref('A'), lit('b')]), ('C', [ref('B', True), ref('A')])], (['C', 'B', 'A'], ['Q'])),
             mk([('A', [lit('~5 km/h')]), ('B', [lit('~ 3/4 of it')]), ('C', [lit('~a ~b')]), ('D', [lit('~q\tz/~/j')])]),   # literal text starting with ~
             mk([('A', [lit('q\n')]), ('B', [lit('~/q\n')]), ('C', [lit('~q\n')])]),
             mk([('A', [lit('one')]), ('B', [ref('A', True), lit('two'), ref('OUTER')]), ('A2', [ref('B'), lit(' '), ref('A2')])]),
@@ -268,18 +285,35 @@ class C41(Prop):
         return parts
 
     def random_case(self, rng):
-        k = rng.choice([1, 1, 2, 3, 4])
+        k = rng.choice([1, 1, 2, 2, 3, 3, 4])
         names = rng.sample(NAMES, k)
         defs = []
         for idx, n in enumerate(names):
             defs.append((n, self.rand_value(rng, names[:idx], names[idx + 1:])))
-        return mk(defs)
+        filt = None
+        if k >= 2 and rng.random() < 0.45:
+            incl = rng.sample(names, rng.randint(1, k)) if rng.random() < 0.75 else []
+            if incl and rng.random() < 0.2:
+                incl.insert(rng.randrange(len(incl) + 1), 'NOPE')
+            rng.shuffle(incl)
+            excl = rng.sample(names, rng.randint(1, k - 1)) if (not incl or rng.random() < 0.25) else []
+            filt = (incl, excl)
+        return mk(defs, filt)
 
     # ------------------------------------------------------------------ implementation
     def body(self, inp):
         env = {}
         for n, v in inp['defs']:
             env[n] = v
+        if inp.get('filter') is not None:
+            # the task environment as the scheduler builds it: real WorkflowConfig.filter_env on the namespace
+            from cylc.flow.parsec.OrderedDict import OrderedDictWithDefaults
+            ns = OrderedDictWithDefaults()
+            ns['environment'] = OrderedDictWithDefaults(env)
+            ns['environment filter'] = OrderedDictWithDefaults(
+                {k: v for k, v in (('include', inp['filter']['incl']), ('exclude', inp['filter']['excl'])) if v})
+            self.WC.filter_env(types.SimpleNamespace(cfg={'runtime': {'t': ns}}))
+            env = ns['environment']
         h = io.StringIO()
         self.W._write_runtime_environment(h, {'environment': env, 'param_var': {}})
         return h.getvalue()
@@ -318,7 +352,9 @@ class C41(Prop):
                 if len(chunk) == 1 or depth > 2:
                     raise Infra(f'bash returned {len(segs)} segments for {len(chunk)} cases')
                 return [r for inp in chunk for r in self.run_chunk([inp], depth + 1)]
-            return [self.decode([n for n, _v in inp['defs']], seg) for inp, seg in zip(chunk, segs)]
+            # (an empty filtered environment: no function is written at all, nothing is exported)
+            return [[[n, None] for n, _v in inp['defs']] if not self.body(inp)
+                    else self.decode([n for n, _v in inp['defs']], seg) for inp, seg in zip(chunk, segs)]
         finally:
             shutil.rmtree(d, ignore_errors=True)
 
@@ -369,6 +405,10 @@ class C41(Prop):
                 tags.add('uni')
             if re.search(r'[ \t#]', v):
                 tags.add('blank#')
+        if inp.get('filter') is not None:
+            f = inp['filter']
+            order = [n for n, _v in inp['defs'] if n in f['incl']]
+            tags.add('filter-reordered' if f['incl'] and [n for n in f['incl'] if n in order] != order else 'filter')
         if not tags:
             tags.add('plain')
         out = 'syntax' if obs == 'syntax' else ('error' if obs == 'error' else 'ran')
@@ -377,15 +417,17 @@ class C41(Prop):
     def neighbours(self, inp, rng):
         out = []
         defs = list(zip([d[0] for d in inp['defs']], inp['parts']))
+        f = inp.get('filter')
+        filt = (f['incl'], f['excl']) if f is not None else None
         for i in range(len(defs)):
             if len(defs) > 1:
-                out.append(mk(defs[:i] + defs[i + 1:]))
+                out.append(mk(defs[:i] + defs[i + 1:], filt))
             n, ps = defs[i]
             for j, p in enumerate(ps):
                 if 'l' in p:
                     s = p['l']
                     for k in range(len(s)):
-                        out.append(mk(defs[:i] + [(n, ps[:j] + [lit(s[:k] + s[k + 1:])] + ps[j + 1:])] + defs[i + 1:]))
+                        out.append(mk(defs[:i] + [(n, ps[:j] + [lit(s[:k] + s[k + 1:])] + ps[j + 1:])] + defs[i + 1:], filt))
         return out[:200]
 
 
